@@ -13,6 +13,7 @@
          an arbitrary extension of the input set; C08 models add_inputs_from)
      validate_fee, build (size guard), build_tx                1679-1709, 2369-2379, 2566-2583 (line numbers of /repo 6801f12)
      check_output_limits (re-check of the topped-up output)    1130-1142
+     check_fee_after_change (fee re-check at the end of the two change paths)
      utils.rs get_input_shortage                               1075-1118
 
    SIZE AND FEE ARE OPAQUE.  Everything that depends on serialised sizes or on the fee arithmetic is an ORACLE
@@ -36,7 +37,7 @@
      oracle     oracle (mkOracle), askF / askA / askS / askT / askSel, fake_addr, fake_value
      functions  min_fee_pub, add_output, fee_for_output, get_input_shortage, will_adding_asset_make_output_overflow,
                 pack_policy_assets, pack_policies, pack_nfts_for_change, change_outputs_loop, change_while_loop,
-                burn_extra, add_change (address id, datum/script id, fuel), sort_unused, retry_loop,
+                burn_extra, check_fee_after_change, add_change (address id, datum/script id, fuel), sort_unused, retry_loop,
                 add_inputs_from_and_change, validate_fee, build, build_tx
      fuel       add_change's `while` loop takes [fuel] iterations at most and returns OutOfFuel beyond
 *)
@@ -281,6 +282,23 @@ Section Change.
         output_admissible last'
     end.
 
+  (* check_fee_after_change (since /repo "fix: add_change_if_needed fails when the fee it computed does not cover the
+     transaction it leaves"): once the change outputs carry their final amounts and the fee field its final width, the
+     stored fee is compared with the estimate of that transaction (the private min_fee on the builder as it is); a fee
+     fixed with set_fee is left to build_tx *)
+  Definition check_fee_after_change : M unit :=
+    letM s := get in
+    match s_fee_request s with
+    | FeeExactly _ => ret tt
+    | _ =>
+        match s_fee s with
+        | Some fee =>
+            letM mf := askF s in
+            if fee <? mf then lift Err else ret tt
+        | None => ret tt
+        end
+    end.
+
   Definition asset_branch (fuel : nat) (addr extra : N) (input_total output_total : value) (fee : N) : M bool :=
     letM change_left0 := lift (value_checked_sub input_total output_total) in
     letM minimum_utxo_val := askA (mkOutput fake_addr fake_value extra) in
@@ -298,6 +316,7 @@ Section Change.
            else ret (change_left1, snd r)) in
     doM modify (set_final_fee (snd r2)) in
     doM (if value_is_zero (fst r2) then ret tt else top_up_last (fst r2)) in
+    doM check_fee_after_change in
     ret true.
 
   (* ----------------------------------------------------------------------------------------- *)
@@ -324,6 +343,7 @@ Section Change.
         doM modify (set_final_fee new_fee) in
         letM amount := lift (value_checked_sub change_estimator (value_new new_fee)) in
         doM add_output (mkOutput addr amount extra) in
+        doM check_fee_after_change in
         ret true.
 
   (* ----------------------------------------------------------------------------------------- *)
